@@ -565,9 +565,8 @@ def apply_op(ctx, op):
         K = 50
         fns = {"shift": lambda i, c, p: c + 3, "double": lambda i, c, p: 2 * c, "reverse": lambda i, c, p: K - c,
                "neg": lambda i, c, p: K - 2 * c}
-        if ctx.tensor is not None and any(r.getAttrs().getShape() is None for r in ctx.tensor.ranks):
-            return "skip"       # the method asserts the rank shape's type against the coordinates
-        if ctx.tensor is None and (f.getRankAttrs().getShape() is None or dd > 0):
+        # (a rank without a recorded shape made the method fail its shape-type assertion until repository fix 2dd70fc)
+        if ctx.tensor is None and dd > 0:
             return "skip"
         if not f.coords:
             return "skip"
